@@ -311,14 +311,17 @@ template <typename Type>
 inline typename Enable_If<Is_Singleton<Type>::value
                           || Is_Interval<Type>::value, bool>::type
 Interval<Boundary, Info>::can_be_exactly_joined_to(const Type& x) const {
-  PPL_DIRTY_TEMP(Boundary, b);
+  // Two disjoint intervals can be exactly joined if and only if the facing
+  // boundaries have the same value and are not both open.
   if (gt(LOWER, lower(), info(), UPPER, f_upper(x), f_info(x))) {
-    b = lower();
-    return eq(LOWER, b, info(), UPPER, f_upper(x), f_info(x));
+    return eq(LOWER, lower(), SCALAR_INFO, UPPER, f_upper(x), SCALAR_INFO)
+      && !(is_open(LOWER, lower(), info())
+           && is_open(UPPER, f_upper(x), f_info(x)));
   }
   else if (lt(UPPER, upper(), info(), LOWER, f_lower(x), f_info(x))) {
-    b = upper();
-    return eq(UPPER, b, info(), LOWER, f_lower(x), f_info(x));
+    return eq(UPPER, upper(), SCALAR_INFO, LOWER, f_lower(x), SCALAR_INFO)
+      && !(is_open(UPPER, upper(), info())
+           && is_open(LOWER, f_lower(x), f_info(x)));
   }
   return true;
 }
